@@ -377,6 +377,14 @@ func (t *Task) IsSleeping() bool { return t.state == Sleeping }
 // Run drives the simulation until no task can be released. It may be called repeatedly; between
 // calls the harness may open gates, feed inputs or inspect state.
 func (s *Sim) Run() error {
+	if cur.Load() != s {
+		// Free-running mode (race-detector companion): nothing is controlled; wait for real
+		// quiescence, let every pending (fake-clock) timer fire, wait again.
+		synctest.Wait()
+		time.Sleep(24 * time.Hour)
+		synctest.Wait()
+		return nil
+	}
 	for {
 		synctest.Wait()
 		s.mu.Lock()
